@@ -106,6 +106,16 @@ def run(ctx, R):
                 table[key] = eng
     ORACLE = {("true", "standard"): ["STANDARD"], ("true", "_"): ["URL_SAFE"], ("_", "standard"): ["STANDARD_NO_PAD"], ("_", "_"): ["URL_SAFE_NO_PAD"]}
     if not table:
-        raise AnchorLost("chars_base64: option match not found")
+        # second recognised shape: a hand-built engine configuration. In the base64 crate
+        # with_encode_padding(false) does not relax decoding (DecodePaddingMode stays RequireCanonical), so an
+        # engine built that way cannot decode its own unpadded output unless the decode mode is set as well.
+        enc_pad = [x for x in walk(h["body"]) if x["k"] == "MethodCall" and x["name"] == "with_encode_padding"]
+        dec_pad = [x for x in walk(h["body"]) if x["k"] == "MethodCall" and x["name"] == "with_decode_padding_mode"]
+        if not enc_pad:
+            raise AnchorLost("chars_base64: neither the four-engine table nor a GeneralPurposeConfig was recognised")
+        R.ob("C37:base64:config-sets-decode-padding-with-encode-padding", len(dec_pad) >= 1,
+             "chars_base64 builds its engine with with_encode_padding(..) but never sets with_decode_padding_mode(..): with padding(false) the encoder omits '=' "
+             "while the decoder still requires canonical padding, so chars_base64/3 cannot decode its own output", F.where(b64))
+        return
     for k, want in ORACLE.items():
         R.ob("C37:base64:padding=%s,charset=%s" % k, table.get(k) == want, "options %s select %s, table %s" % (k, table.get(k), want), F.where(b64))
